@@ -1,0 +1,141 @@
+//go:build verif
+
+package lungo
+
+import (
+	"sync"
+	"time"
+)
+
+// The hooks in this file are only compiled with the "verif" build tag. They
+// let the model checking harness own the scheduling of every wait of the
+// engine protocol and observe state the public API does not expose.
+
+// VerifAwait is called before a wait that may block; ready reports whether the
+// wait could complete right now.
+var VerifAwait func(site string, obj interface{}, ready func() bool)
+
+// VerifYield is called at hand-over sites inside critical sections.
+var VerifYield func(site string, obj interface{})
+
+// VerifThreadStart and VerifThreadEnd bracket goroutines started by the engine.
+var VerifThreadStart func(name string, obj interface{})
+var VerifThreadEnd func(name string, obj interface{})
+
+func verifAwait(site string, obj interface{}, ready func() bool) {
+	if f := VerifAwait; f != nil {
+		f(site, obj, ready)
+	}
+}
+
+func verifYield(site string, obj interface{}) {
+	if f := VerifYield; f != nil {
+		f(site, obj)
+	}
+}
+
+var verifState struct {
+	sync.Mutex
+	ended map[interface{}]bool
+	ticks map[*Engine]chan time.Time
+}
+
+func verifThreadStart(name string, obj interface{}) {
+	if f := VerifThreadStart; f != nil {
+		f(name, obj)
+	}
+}
+
+func verifThreadEnd(name string, obj interface{}) {
+	verifState.Lock()
+	if verifState.ended == nil {
+		verifState.ended = map[interface{}]bool{}
+	}
+	verifState.ended[obj] = true
+	verifState.Unlock()
+	if f := VerifThreadEnd; f != nil {
+		f(name, obj)
+	}
+}
+
+// verifThreadEnded reports whether the goroutine started for obj has ended (or
+// no scheduler is installed, in which case nobody needs to wait for it here).
+func verifThreadEnded(obj interface{}) bool {
+	if VerifThreadStart == nil {
+		return true
+	}
+	verifState.Lock()
+	defer verifState.Unlock()
+	return verifState.ended[obj]
+}
+
+// verifSignalReady reports whether a receive on a stream's signal channel
+// would succeed (a pending signal or a closed channel) without consuming it.
+// It must only be called while no other goroutine uses the channel.
+func verifSignalReady(signal chan struct{}) bool {
+	select {
+	case _, ok := <-signal:
+		if ok {
+			signal <- struct{}{}
+		}
+		return true
+	default:
+		return false
+	}
+}
+
+func verifTickChan(e *Engine) chan time.Time {
+	verifState.Lock()
+	defer verifState.Unlock()
+	if verifState.ticks == nil {
+		verifState.ticks = map[*Engine]chan time.Time{}
+	}
+	ch := verifState.ticks[e]
+	if ch == nil {
+		ch = make(chan time.Time, 1)
+		verifState.ticks[e] = ch
+	}
+	return ch
+}
+
+func verifTick(e *Engine) <-chan time.Time { return verifTickChan(e) }
+
+func verifTickPending(e *Engine) bool { return len(verifTickChan(e)) > 0 }
+
+// VerifGrantTick makes the expiry loop of the engine run one pass.
+func VerifGrantTick(e *Engine) {
+	select {
+	case verifTickChan(e) <- time.Time{}:
+	default:
+	}
+}
+
+// VerifForget drops the bookkeeping kept for an engine.
+func VerifForget(e *Engine) {
+	verifState.Lock()
+	delete(verifState.ticks, e)
+	delete(verifState.ended, e)
+	verifState.Unlock()
+}
+
+// VerifTokenFree reports whether the writer slot is free.
+func (e *Engine) VerifTokenFree() bool { return e.token.VerifFree() > 0 }
+
+// VerifTxn returns the current write transaction (without locking).
+func (e *Engine) VerifTxn() *Transaction { return e.txn }
+
+// VerifStreams returns the number of registered streams (without locking).
+func (e *Engine) VerifStreams() int { return len(e.streams) }
+
+// VerifAlive reports whether the engine has not been closed.
+func (e *Engine) VerifAlive() bool { return e.tomb.Alive() }
+
+// VerifState returns the session flags (without locking).
+func (s *Session) VerifState() (txn *Transaction, starting, ended bool) {
+	return s.txn, s.starting, s.ended
+}
+
+// VerifState returns the stream state (without locking).
+func (s *Stream) VerifState() (last interface{}, pending int, closed, dropped bool, err error) {
+	return s.last, len(s.signal), s.closed, s.dropped, s.error
+}
